@@ -9,6 +9,7 @@ import OsacaVerif.Driver.C11
 import OsacaVerif.Driver.C13
 import OsacaVerif.Driver.C16
 import OsacaVerif.Driver.C19
+import OsacaVerif.Driver.C09
 open OsacaVerif OsacaVerif.Proto
 
 /-- one handler per property module; the first that recognises the op answers -/
@@ -22,7 +23,8 @@ def handlers : List (Req → Option String) := [
   Driver.C11.handle,
   Driver.C13.handle,
   Driver.C16.handle,
-  Driver.C19.handle
+  Driver.C19.handle,
+  Driver.C09.handle
 ]
 
 def dispatch (r : Req) : String :=
